@@ -194,3 +194,12 @@ chk("C28", MC,
     "the application exactly once in order with one receive-accept toggle each.",
     PY_NOTE + " Pipes are byte queues; handshake model written from the EL6002 documentation.",
     "symbolic execution of the real device code against a nondeterministic handshake model over bounded histories (z3)", "B:8/C28")
+
+chk("C15", MC,
+    "real Terminal.sdo_read/sdo_write with the real MailboxLock (2-3 asyncio "
+    "tasks, CoE server model) and the real LockFile/ParallelMailboxLock run by "
+    "2-3 simulated processes over a POSIX file/lockf model with a scheduling "
+    "point at every system call (bounded preemptions, optional crash); values, "
+    "stored counter symbolic; obligations discharged by z3 under each path",
+    PY_NOTE, "symbolic execution of the Python source (own z3-backed engine) "
+    "with exhaustive bounded schedule exploration", "B:8/C15")
